@@ -269,6 +269,7 @@ Definition protect (mki_index : Z) : M Z :=
   (* IVs *)
   let iv := rtp_iv (ck_alg (k_rtp_c k)) ssrc est in
   log_encrypt_iv (k_rtp_c k) (key_fp (k_rtp_c k) ++ iv) ;;;
+  (match k_xtn_c k with Some xk => log_encrypt_iv xk (key_fp xk ++ iv) | None => ret tt end) ;;;
   let cs0 := cipher_start (k_rtp_c k) iv in
   let est_net := be64 (est * 65536) in
   (* keystream prefix into the tag *)
@@ -278,9 +279,7 @@ Definition protect (mki_index : Z) : M Z :=
           else ret cs0) ;;
   (* RFC 6904 *)
   (match k_xtn_c k with
-   | Some xk => if hdr_x pkt =? 1 then
-                  log_encrypt_iv xk (key_fp xk ++ iv) ;;;
-                  process_xtn st pkt (cipher_start xk iv) else ret tt
+   | Some xk => if hdr_x pkt =? 1 then process_xtn st pkt (cipher_start xk iv) else ret tt
    | None => ret tt
    end) ;;;
   (* srtp_cryptex_protect *)
@@ -341,15 +340,14 @@ Definition unprotect : M Z :=
   let cs0 := cipher_start (k_rtp_c k) iv in
   let est_net := be64 (est * 65536) in
   let enc0 := hdr_len pkt + (if hdr_x pkt =? 1 then xtn_len pkt else 0) in
-  (* srtp_cryptex_unprotect_init: profile and length are read through the `rtp` argument,
-     i.e. from the destination block *)
+  (* srtp_cryptex_unprotect_init: profile and length are read from the received packet *)
   inuse <- (if s_cryptex st && (hdr_x pkt =? 1) then
-              h <- rd_dst (hdr_len pkt) 4 ;;
+              h <- rd_src (hdr_len pkt) 4 ;;
               let profile := be16 h 0 in
               ret ((profile =? cryptex_one_byte_profile_c) || (profile =? cryptex_two_byte_profile_c))
             else ret false) ;;
   let inplace := inuse && b_alias b in
-  xl <- (if inuse then (h <- rd_dst (hdr_len pkt) 4 ;; ret ((be16 h 2 + 1) * 4)) else ret 0) ;;
+  xl <- (if inuse then (h <- rd_src (hdr_len pkt) 4 ;; ret ((be16 h 2 + 1) * 4)) else ret 0) ;;
   let enc_start := if inuse then u64 (u64 (enc0 - (xl - octets_in_rtp_xtn_hdr_c))
                                       - (if inplace then hdr_cc pkt * 4 else 0)) else enc0 in
   (if u64 (len - tag_len - s_mki_size st) <? enc_start then exit_with st_parse_err else ret tt) ;;;
